@@ -37,9 +37,11 @@ Loaders == /\ Is("loaders")
            /\ ids' = [ids EXCEPT ![Ev.slot] = IF Ev.cdict /\ Ev.formatted THEN Ev.idDict ELSE 0]
            /\ KeepM
 
-RawMode(mc) == mc = "refPrefix"
+RawMode(mc) == mc \in {"refPrefix", "cdictRaw", "loadRaw"}      \* the bytes are used as content whatever they look like
+FullMode(mc) == mc \in {"cdictFull", "loadFull"}               \* the bytes must be a formatted dictionary
 RT == /\ Is("rt")
-      /\ IF accepted[Ev.slot] \/ RawMode(Ev.mc)
+      /\ (FullMode(Ev.mc) /\ ~formatted[Ev.slot] /\ Ev.dsize > 0) => ~Ev.cok        \* (an empty dictionary is no dictionary)
+      /\ IF (accepted[Ev.slot] /\ (FullMode(Ev.mc) => formatted[Ev.slot])) \/ RawMode(Ev.mc)
          THEN /\ Ev.cok /\ Ev.dok /\ Ev.match
               /\ Ev.frameID = (IF Ev.idFlag = 1 /\ ~RawMode(Ev.mc) THEN ids[Ev.slot] ELSE 0)
          ELSE ~Ev.cok \/ (Ev.dok => Ev.match)         \* a refused dictionary: an error, never wrong bytes
